@@ -61,7 +61,7 @@ def rv(x):
     if isinstance(x, float):
         if x != x or x in (math.inf, -math.inf):
             raise NonFinite(x)
-        return z3.RealVal(fractions.Fraction(repr(x)))
+        return z3.RealVal(lift_float(x))
     if isinstance(x, fractions.Fraction):
         return z3.RealVal(x)
     if type(x).__module__ == "numpy" and hasattr(x, "item") and getattr(x, "ndim", 0) == 0:
@@ -71,6 +71,25 @@ def rv(x):
 
 class NonFinite(TypeError):
     pass
+
+
+_LIFT = {}
+
+
+def lift_float(x):
+    """concrete float -> the real number it stands for: the shortest decimal that round-trips, or -- for values
+    computed in floating point before they met a symbolic one, e.g. 1.0/6.0 -- the simplest rational within 2 ulp"""
+    r = _LIFT.get(x)
+    if r is None:
+        f = fractions.Fraction(repr(x))
+        if f.denominator > 10**6 and x != 0:
+            cand = fractions.Fraction(x).limit_denominator(10**6)
+            if cand != 0 and abs(float(cand) - x) <= 2 * math.ulp(x):
+                f = cand
+        if len(_LIFT) < 100000:
+            _LIFT[x] = f
+        r = f
+    return r
 
 
 def bv(x):
